@@ -232,6 +232,39 @@ def run(ctx):
                 tally[f"{bname}:novalue:{' '.join(out.split(' ')[:2])}"] += 1
                 if not out.startswith("lib "):
                     viol.append((bname, impl.real_parse_ast(t), (out + " " + str(sql)[-120:] + " " + str(params)[:80]), f"the literal {lit} has no value, yet the backend did not refuse with a library exception"))
+    # field names that are also attributes of the objects a backend looks names up in (column collections, model classes, mapped classes): an existing column
+    # with such a name must be translated as THAT column, an unknown one must be reported as the library's invalid-field error
+    import sqlalchemy as _sa
+    from odata_query.sqlalchemy import apply_odata_core as _core
+    z = _sa.table("z", _sa.column("id", _sa.Integer), _sa.column("items", _sa.Integer), _sa.column("values", _sa.String), _sa.column("name", _sa.String))
+    for t, cols in (("items eq 3", ["items"]), ("tolower(values) eq 'c'", ["values"]), ("items in (3, 7)", ["items"]), ("contains(values, 'a')", ["values"]),
+                    ("items gt id and values ne name", ["items", "id", "values", "name"]), ("keys eq 1", None), ("length(get) eq 1", None), ("update eq 1", None), ("c eq 1", None),
+                    ("columns eq 1", None), ("__class__ eq 1", None), ("corresponding_column eq 1", None), ("metadata eq 1", None)):
+        ctx.evaluations += 1
+        try:
+            sql = str(_core(_sa.select(z), t).compile(compile_kwargs={"literal_binds": True}))
+            out = "ok"
+        except Exception as e:  # noqa
+            out, sql = impl.canon_exc(e), ""
+        tally[f"sa-core:attrname:{' '.join(out.split(' ')[:2])}"] += 1
+        if cols is None:
+            if not out.startswith("lib InvalidFieldException"):
+                viol.append(("sa-core", impl.real_parse_ast(t), out + " " + sql[-120:], "unknown field not reported as InvalidFieldException"))
+        elif out != "ok":
+            if not out.startswith("lib "):
+                viol.append(("sa-core", impl.real_parse_ast(t), out, "internal error leaked"))
+        else:
+            where = sql.split("WHERE", 1)[-1]
+            missing = [c for c in cols if f'z.{c}' not in where and f'z."{c}"' not in where]
+            if missing:
+                viol.append(("sa-core", impl.real_parse_ast(t), "ok " + where[:160], f"the field(s) {missing} of the filter are not represented in the translation"))
+    for t in ("keys eq 1", "metadata eq 1", "registry eq 1", "__table__ eq 1", "query eq 1", "__mapper__ eq 1", "mro eq 1"):
+        for bname, comp in (("sa-orm", lambda x: oc.sa_shorthand_sql(x, "orm")),):
+            out, sql, params = comp(t)
+            ctx.evaluations += 1
+            tally[f"{bname}:attrname:{' '.join(out.split(' ')[:2])}"] += 1
+            if not out.startswith("lib InvalidFieldException"):
+                viol.append((bname, impl.real_parse_ast(t), out + " " + str(sql)[-120:], "unknown field not reported as InvalidFieldException"))
     ctx.extra["judged"] = dict(sorted(tally.items()))
     ctx.note(f"judge C12 on real outcomes: {len(viol)} violations; classes: " + ", ".join(f"{k}={v}" for k, v in sorted(tally.items()) if "foreign" in k or "notimpl" in k or "env" in k))
     new = [(b, n, r, why) for (b, n, r, why) in viol if f"C12:{b}:{type(n).__name__}" not in known_sigs]
